@@ -353,9 +353,10 @@ class _DivideTransformer(ast.NodeTransformer):
         if not isinstance(node.op, ast.Div):
             return self.generic_visit(node)
 
+        # Visit the operands too: they may contain further divisions.
         return ast.Call(
             func=ast.Name(id="_safe_divide", ctx=ast.Load()),
-            args=[node.left, node.right],
+            args=[self.visit(node.left), self.visit(node.right)],
             keywords=[],
         )
 
